@@ -9,7 +9,7 @@ use crate::encode::CompileError;
 use crate::filter::{HierarchicalIterator, Separation};
 use crate::token::{Token, TokenTree, Tokenized};
 use crate::walk::{
-    Entry, EntryResidue, FileIterator, JoinAndGetDepth, SplitAtDepth, TreeEntry, WalkBehavior,
+    Entry, EntryResidue, FileIterator, JoinAndGetDepth, TreeEntry, WalkBehavior,
     WalkError, WalkTree,
 };
 use crate::{BuildError, CandidatePath, Glob, Pattern};
@@ -307,7 +307,6 @@ impl GlobWalker {
         self,
         behavior: impl Into<WalkBehavior>,
     ) -> impl 'static + FileIterator<Entry = GlobEntry, Residue = TreeEntry> {
-        let pivot = self.anchor.pivot;
         self.anchor
             .walk_with_behavior(behavior)
             .filter_map_tree(move |cancellation, separation| {
@@ -325,8 +324,8 @@ impl GlobWalker {
                     _ => unreachable!(),
                 };
                 let entry = filtrate.as_ref();
-                let (_, path) = self::root_relative_paths(entry.path(), entry.depth(), pivot);
-                let depth = entry.depth().saturating_sub(1);
+                let (_, path) = entry.root_relative_paths();
+                let depth = entry.depth_from_pivot().saturating_sub(1);
                 for (position, candidate) in path
                     .components()
                     // Component programs are compiled from the nominal components of the glob, so
@@ -363,11 +362,7 @@ impl GlobWalker {
                                 {
                                     filtrate
                                         .map(|entry| {
-                                            Ok(GlobEntry {
-                                                entry,
-                                                pivot,
-                                                matched,
-                                            })
+                                            Ok(GlobEntry { entry, matched })
                                         })
                                         .into()
                                 }
@@ -392,11 +387,7 @@ impl GlobWalker {
                             {
                                 filtrate
                                     .map(|entry| {
-                                        Ok(GlobEntry {
-                                            entry,
-                                            pivot,
-                                            matched,
-                                        })
+                                        Ok(GlobEntry { entry, matched })
                                     })
                                     .into()
                             }
@@ -421,11 +412,7 @@ impl GlobWalker {
                 {
                     return filtrate
                         .map(|entry| {
-                            Ok(GlobEntry {
-                                entry,
-                                pivot,
-                                matched,
-                            })
+                            Ok(GlobEntry { entry, matched })
                         })
                         .into();
                 }
@@ -573,7 +560,6 @@ impl FilterAny {
 #[derive(Debug)]
 pub struct GlobEntry {
     entry: TreeEntry,
-    pivot: usize,
     matched: MatchedText<'static>,
 }
 
@@ -608,7 +594,7 @@ impl Entry for GlobEntry {
     }
 
     fn root_relative_paths(&self) -> (&Path, &Path) {
-        self::root_relative_paths(self.path(), self.entry.depth(), self.pivot)
+        self.entry.root_relative_paths()
     }
 
     fn file_type(&self) -> FileType {
@@ -620,10 +606,7 @@ impl Entry for GlobEntry {
     }
 
     fn depth(&self) -> usize {
-        self.entry
-            .depth()
-            .checked_add(self.pivot)
-            .expect("overflow determining depth")
+        self.entry.depth()
     }
 }
 
@@ -633,10 +616,3 @@ impl From<GlobEntry> for TreeEntry {
     }
 }
 
-fn root_relative_paths(path: &Path, depth: usize, pivot: usize) -> (&Path, &Path) {
-    path.split_at_depth(
-        depth
-            .checked_add(pivot)
-            .expect("overflow determining root and relative paths"),
-    )
-}
